@@ -16,12 +16,18 @@ TRUE_IF = ["1", "defined(DEF1)", "defined DEF1", "!defined(UNDEF)", "DEF1", "!UN
            "defined(DEFE)", "DEF1 == 1", "UNDEF == 0", "(DEF1)", "2 > 1", "true", "defined(DEF0) && !DEF0",
            "__has_include(\"exists.h\")", "!__has_include(\"missing.h\")", "__has_include(<exists.h>)",
            "ALIAS_UNDEF == 0", "!ALIAS_UNDEF", "ALIAS1", "EXPR1 == 1", "FN(UNDEF) == 1", "FN(ALIAS_UNDEF)", "ALIAS2 + 1 > 0",
-           "PICK(UNDEF, DEF1)", "!ALIAS2 && ALIAS1", "defined(ALIAS_UNDEF)", "NUM7 - 7 == UNDEF"]
+           "PICK(UNDEF, DEF1)", "!ALIAS2 && ALIAS1", "defined(ALIAS_UNDEF)", "NUM7 - 7 == UNDEF",
+           # 'defined NAME' without its own parentheses, inside parentheses that belong to the expression
+           "(defined DEF1) && DEF1", "!(defined UNDEF)", "(defined DEF1 || defined UNDEF)", "( defined DEF1 )", "(defined DEF0)",
+           "((defined(DEF1)) && (defined DEF0))", "defined DEF1 && defined DEF0", "(!defined UNDEF) && 1", "defined DEF1 ? 1 : 0",
+           "(defined UNDEF ? 0 : 1)", "(1 && defined DEFE) == 1"]
 FALSE_IF = ["0", "defined(UNDEF)", "defined UNDEF", "!defined(DEF1)", "DEF0", "UNDEF", "DEF1 && UNDEF", "!DEF1",
             "DEF1 == 2", "UNDEF != 0", "(DEF0)", "1 > 2", "false", "defined(UNDEF) || DEF0",
             "__has_include(\"missing.h\")", "!__has_include(\"exists.h\")", "__has_include(<missing.h>)",
             "ALIAS_UNDEF", "ALIAS1 == 0", "EXPR1 - 1", "FN(UNDEF) - 1", "ALIAS2", "PICK(DEF1, UNDEF)", "ALIAS2 - 1 > 0",
-            "!defined(ALIAS2)", "NUM7 - 7 != UNDEF"]
+            "!defined(ALIAS2)", "NUM7 - 7 != UNDEF",
+            "(defined UNDEF) || DEF0", "!(defined DEF1)", "(defined UNDEF || defined UNDEF2)", "(defined DEF1) && UNDEF", "(defined UNDEF)",
+            "defined UNDEF || defined UNDEF2", "(defined DEF1 ? 0 : 1)", "(0 || defined UNDEF) == 1"]
 
 
 def spell(spec, env_prefix=""):
